@@ -772,6 +772,20 @@ theorem proto_tag (f c : PDict) (k : Name) :
   pget_mergeInto f c k
 
 open Hs.NsA in
+/-- the model merges last to first, the code first to last: on a dict (distinct keys) every tag comes out the same -/
+theorem merge_loop_eq (f : PDict) (hn : (f.map Prod.fst).Nodup) (c : PDict) (k : Name) :
+    pget (mergeLoop f c) k = pget (mergeInto f c) k := by
+  rw [pget_mergeLoop f hn, pget_mergeInto]
+
+open Hs.NsA in
+/-- `find_flattened_children` as the code's two nested loops run it (symbols outside, the parent's keys inside, inserts
+into a fresh dict) builds, on a parent with distinct keys, the dict of `flattened_spec` -/
+theorem flattened_loop_eq (fuel : Nat) (ns : Ns) (fl : List Name) (parent : PDict)
+    (hn : (parent.map Prod.fst).Nodup) (k : Name) :
+    pget (flattenedLoop fuel ns fl parent) k = pget (flattened fuel ns fl parent) k :=
+  pget_flattenedLoop fuel ns fl parent hn k
+
+open Hs.NsA in
 /-- a parent none of whose tags names a def with children has no prototypes -/
 theorem protos_none (fuel : Nat) (ns : Ns) (pd : ProtoDefs) (parent : PDict)
     (h : ∀ kv, kv ∈ parent → plookup pd kv.1 = none) : protos fuel ns pd parent = [] := by
